@@ -16,7 +16,7 @@ from __future__ import annotations
 
 import z3
 
-from contracts.unbounded import exp, ext_abs, ext_exp, inb, ints
+from contracts.unbounded import accumulated, exp, ext_abs, ext_exp, inb, ints
 from contracts.unbounded import records
 from pyvc import wp
 from pyvc.contract import Contract
@@ -96,16 +96,19 @@ def on_index_spec():
         S = old.ghost["S"]
         return [("cell_t_r_gains_the_sum_over_the_gaussians_of_scale_times_closed_form_plus_backsweep_and_nothing_else_changes", cell(old, new, S(old.shape("centers"), t, r)))]
 
-    def inv0(old, now, k):
-        return [cell(old, now, old.ghost["S"](k, t, r))]
+    # one invariant for every loop of the nest, written for "the loop over the Gaussians / the rates / the times" whatever
+    # their nesting order (loop interchange does not disturb the proof)
+    coords = {("rates", 0): r, ("times", 0): t}
 
-    def inv1(old, now, k):
-        S, ni_ = old.ghost["S"], now.loopvar(0)
-        return [cell(old, now, S(ni_, t, r) + z3.If(r < k, tm(old, ni_, t, r), 0)), inb(ni_, old.shape("centers"))]
+    def inv(k):
+        def f(old, now, i):
+            S = old.ghost["S"]
+            acc = accumulated(now, (k, i), coords, ("centers", 0), old.shape("centers"), lambda g: S(g, t, r))
+            return [cell(old, now, acc)] + [inb(now.loopvar(j), old.shape(*now.loop_over(j))) for j in now.active_loops() if j < k]
 
-    def inv2(old, now, k):
-        S, ni_, nr_ = old.ghost["S"], now.loopvar(0), now.loopvar(1)
-        return [cell(old, now, S(ni_, t, r) + z3.If(z3.Or(r < nr_, z3.And(r == nr_, t < k)), tm(old, ni_, t, r), 0)), inb(ni_, old.shape("centers")), inb(nr_, old.shape("rates"))]
+        return f
+
+    inv0, inv1, inv2 = inv(0), inv(1), inv(2)
 
     params = [("matrix", "arr2"), ("rates", "arr1"), ("times", "arr1"), ("centers", "arr1"), ("widths", "arr1"), ("scales", "arr1"), ("backsweep", "bool"), ("backsweep_period", "real")]
     ext = {"np.exp": ext_exp, "abs": ext_abs, "erf": _erf, "erfcx": _erfcx}
